@@ -279,7 +279,7 @@ def strat_post(tier):
     return st.integers(1, 3).flatmap(lambda d: st.fixed_dictionaries({
         'd': st.just(d), 'seed': st.integers(0, 10 ** 6), 'nreg': st.integers(1, 6),
         'prior': st.sampled_from(['uniform', 'normal', 'mixed']), 'surrogate_used': st.booleans(),
-        'cutoffs': st.lists(st.sampled_from([0.3, 0.7, 1.3, 2.9, 6.1]), min_size=1, max_size=3),
+        'cutoffs': st.lists(st.sampled_from([0.3, 0.7, 1.3, 2.9, 6.1, 0.0]), min_size=1, max_size=3),     # 0.0: nothing is accepted
         'n2': st.integers(1, 6), 'npts': st.integers(1, 8), 'sample_seed': st.integers(0, 10 ** 5),
         # the bounds handed to the posterior (only the normalisation grid uses them): wide, or tighter than the regions
         'lims': st.sampled_from([4.0, 4.0, 1.5, 0.8]),
